@@ -158,6 +158,16 @@ def one_history(ctx, src):
                 if dd:
                     ctx.violation(f"result depends on history/options: used evaluator vs fresh evaluator of the same configuration: {dd}",
                                   inp, impl={"used": str(got)[:400], "fresh": str(fresh)[:400]}, key={"kind": "history-dependent"})
+                if isinstance(got, dict):
+                    with quiet():
+                        adv = set(evs[e].resulting_metric_keys)
+                    for g_ in got:
+                        dk = got[g_].get("dict_keys")
+                        extra = sorted(set(dk) - adv - {"computation_time"}) if isinstance(dk, list) else []
+                        if extra:
+                            ctx.violation(f"the result of evaluator {e} reports {extra[:3]}, which the evaluator does not advertise among its metric keys "
+                                          f"(another evaluator with other global metrics was asked for its keys first?)", inp, key={"kind": "keys-changed"})
+                            break
                 if e in used_after:
                     nontriv = True
                 if groups and any(g["single"] for g in groups):
@@ -340,9 +350,41 @@ def construction_cases(ctx, n):
                           inp, impl={"before": keys_a, "after": keys_b}, key={"kind": "keys-changed"})
 
 
+def inplace_refill_with_groups(ctx):
+    """an evaluator with class groups evaluates the caller's two buffers; the caller refills the very same buffers with the next case, which
+    carries a label no group defines: the call is refused exactly as a fresh evaluator refuses it"""
+    groups = [{"name": "a", "labels": [1, 2], "merge": False, "single": False}, {"name": "b", "labels": [3], "merge": True, "single": False}]
+    cfg = E.mk_cfg("MATCHED", ["IOU", "DSC"])
+    with quiet():
+        ev = impl.mk_evaluator(cfg, groups=groups)
+    bp, br = np.zeros((4, 6), np.uint8), np.zeros((4, 6), np.uint8)
+    fills = [((1, 2), (1, 2)), ((1, 3), (1, 3)), ((1, 7), (1, 2)), ((2, 3), (9, 3)), ((1, 2), (1, 2))]
+    for k, (pl, rl) in enumerate(fills):
+        bp[...] = 0
+        br[...] = 0
+        bp[0:2, 0:2], bp[2:4, 3:5] = pl
+        br[0:2, 0:3], br[2:4, 3:5] = rl
+        used = E.run_impl(cfg, bp, br, groups=groups, evaluator=ev)
+        fresh = E.run_impl(cfg, bp.copy(), br.copy(), groups=groups)
+        inp = {"specs": [], "ops": [["inplace-refill", k]], "fills": [list(map(list, f)) for f in fills], "src": "inplace-refill"}
+        ctx.case(inp, True)
+        ctx.count("buffers_refilled_in_place_with_groups")
+        if isinstance(used, str) != isinstance(fresh, str) or (isinstance(used, str) and used != fresh):
+            ctx.violation(f"refilled buffers (prediction labels {pl}, reference labels {rl}): the evaluator that saw these array objects before answers "
+                          f"{used if isinstance(used, str) else 'with a result'}, a fresh evaluator {fresh if isinstance(fresh, str) else 'with a result'}", inp,
+                          key={"kind": "history-dependent"})
+            return
+        if isinstance(used, dict):
+            dd = res_equal(fresh, used, cfg["eval_metrics"])
+            if dd:
+                ctx.violation(f"refilled buffers: result depends on what the evaluator saw before: {dd}", inp, key={"kind": "history-dependent"})
+                return
+
+
 def run(ctx):
     if not _BASE:
         _BASE.append(default_evaluator_report())
+    inplace_refill_with_groups(ctx)
     construction_cases(ctx, ctx.scale(40, 400))
     for i in range(ctx.scale(60, 800)):
         one_history(ctx, f"rand{i}")
@@ -366,6 +408,9 @@ def replay(ctx, rec):
         pool_one(ctx, np.array(i["pred"], dtype=dt).reshape(i["shape"]), np.array(i["ref"], dtype=dt).reshape(i["shape"]), i["cfg"])
         return
     if i.get("kind") == "pool":
+        return
+    if i.get("src") == "inplace-refill":
+        inplace_refill_with_groups(ctx)
         return
     if i.get("ops") == [["foreign-handlers"]]:
         one_history(ctx, "replay")
